@@ -54,6 +54,7 @@ structure Msg where
   holder : Option HolderId  -- shared auto-free payload holder
   sub : Option SrcId        -- subscription that matched (publish), none for tell / broadcast
   pill : Bool := false
+  rcpt : Option ModId := none  -- the module this copy was made for (every recipient gets its own `ps_priv_t`)
   deriving DecidableEq, Repr, Inhabited
 
 /-- an event as handed to a handler -/
